@@ -666,6 +666,43 @@ def r11_8(rep, prog):
                 break
         else:
             rep.holds('R11.8', '%s:the forced bandwidth is applied before the Nyquist cap `bandwidth > %s`' % (prog.config, w), '%s:%s' % (f.file, sx.line(caps[w][2])), 'no store of user_bandwidth is reachable after the cap')
+    # the packet emitted when the byte budget is too small for real coding is generated in opus_encode_native itself,
+    # before the caps: its TOC must still be built from values that went through the same settings
+    from .. import decide
+    lb = [c for b, i, c in T.calls_to(cf, 'gen_toc') if sx.kind(sx.strip(c[2][0])) == 'local']
+    for c in lb:
+        def deps(e):
+            seen, flds, work = set(), set(), [e]
+            while work:
+                x = work.pop()
+                for y in sx.walk(x):
+                    if sx.kind(y) == 'field':
+                        flds.add(y[3])
+                    if sx.kind(y) == 'local' and y[2] not in seen:
+                        seen.add(y[2])
+                        work += [r for lv, r in decide.find_assign(f, y[1])]
+            return flds
+        where = '%s:%s' % (f.file, sx.line(c))
+        fb = deps(c[2][2])
+        need = {'max_bandwidth', 'user_bandwidth', 'Fs'}
+        inst = '%s:the low-budget packet announces a bandwidth that went through the forced / maximum / Nyquist limits' % prog.config
+        if need <= fb:
+            rep.holds('R11.8', inst, where, 'bandwidth argument depends on %s' % sorted(fb))
+        else:
+            rep.violated('R11.8', inst, where, 'the bandwidth passed to gen_toc depends only on %s - not on %s: this packet announces the previous (initially fullband) bandwidth whatever the settings' % (sorted(fb), sorted(need - fb)),
+                         key='lowbudget-toc-bandwidth')
+        fm = deps(c[2][0])
+        inst = '%s:the low-budget packet of a low-delay encoder announces the MDCT layer' % prog.config
+        if 'application' in fm:
+            rep.holds('R11.8', inst, where, 'mode argument depends on %s' % sorted(fm))
+        else:
+            rep.violated('R11.8', inst, where, 'the mode passed to gen_toc depends only on %s, not on the application: a RESTRICTED_LOWDELAY encoder announces the previous (initially hybrid) mode here' % sorted(fm), key='lowbudget-toc-mode')
+        fc = deps(c[2][3])
+        inst = '%s:the low-budget packet announces the forced channel count' % prog.config
+        if 'force_channels' in fc:
+            rep.holds('R11.8', inst, where, 'channel argument depends on %s' % sorted(fc))
+        else:
+            rep.violated('R11.8', inst, where, 'the channel count passed to gen_toc depends only on %s, not on force_channels: a forced-mono stereo encoder announces stereo here' % sorted(fc), key='lowbudget-toc-channels')
     # decide_fec receives &st->bandwidth: it may only decrement or restore it
     if prog.has_fn('decide_fec'):
         g = prog.fn('decide_fec')
